@@ -64,6 +64,18 @@ def _pred(key, want, desc, v):
         fx = (v.get("observed") or {}).get("fixers") or []
         fb = (v.get("observed") or {}).get("fixer_bases") or {}
         return bool(fx) and all(any(b in want for b in fb.get(f, [])) for f in fx)
+    if key == "every_fixer_base_name_contains_one_of":
+        fx = (v.get("observed") or {}).get("fixers") or []
+        fb = (v.get("observed") or {}).get("fixer_bases") or {}
+        return bool(fx) and all(any(w in b for b in fb.get(f, []) for w in want) for f in fx)
+    if key == "some_input_has_whitespace_only_line":
+        import base64
+        import re
+
+        for f in desc.get("sandbox") or []:
+            if f["path"].endswith(".vhd") and re.search(rb"(?m)^[ \t]+\r?$", base64.b64decode(f["b64"])):
+                return bool(want)
+        return not want
     raise KeyError("unknown signature predicate %r" % key)
 
 
